@@ -25,6 +25,8 @@ def dataset_cfg(rng, tier, prop):
     dims = DIMS[:ndims]
     kinds = {d: rng.choice(V.LABEL_KINDS) for d in dims + NEW_NAMES}
     mode = rng.choice(["enum", "enum", "random"]) if prop == "C13" else "random"
+    if prop == "C15":
+        prop = "C14"   # same histories as C14: mutations interleaved with Dataset-wide operations
     cfg = {"world": "dataset", "dim_names": dims, "dim_kind": kinds, "max_rank": min(3, ndims), "max_len": rng.randint(1, 4),
            "min_len": rng.choice([0, 1, 1, 2]), "orders": sorted(rng.sample(V.ORDERS, rng.randint(1, 3))),
            "label_kinds": V.LABEL_KINDS, "dtypes": rng.choice([["f8"], ["f8", "i8"], ["f8", "i8", "b1"]]),
@@ -191,7 +193,7 @@ class DatasetWorld(object):
         return c
 
     def summary(self):
-        nontrivial = (self.n_mut >= 2 and self.n_rej >= 1) if "C13" in self.props else self.n_ops_multi >= 1
+        nontrivial = (self.n_mut >= 2 and self.n_rej >= 1) if "C13" in self.props else (self.n_ops_multi >= 1 if "C14" in self.props else self.n_ops >= 1)
         return {"mutations": self.n_mut, "rejected": self.n_rej, "ds_ops": self.n_ops, "nontrivial": nontrivial}
 
     def finish(self):
@@ -651,7 +653,7 @@ class DatasetWorld(object):
             model.dims[d]["attrs"] = _copy.deepcopy(dict(ds.axes[d].attrs))
         for k in model.vars:
             model.vars[k]["attrs"] = _copy.deepcopy(dict(dict.__getitem__(ds, k).attrs))
-        if "C15" in self.props or True:
+        if "C15" in self.props:
             for a, b, k in zip(arrs, before, s["keys"]):
                 if V.snap(a) != b:
                     raise Violation("C15", "operand_changed", "Dataset(...) changed input %s" % k)
@@ -666,12 +668,15 @@ class DatasetWorld(object):
         if not self.model.accepts(spec):
             raise Skip("would be rejected")
         a = V.build_array(spec)
+        a_before = V.snap(a) if "C15" in self.props else None
         try:
             self.ds[s["key"]] = a
         except Exception as e:
             if "C13" in self.props:
                 raise Violation("C13", "ds_accept", "ds[%r] = array with matching labels raised %s: %s" % (s["key"], type(e).__name__, str(e)[:200]))
             raise Skip("raised")
+        if a_before is not None and V.snap(a) != a_before:
+            raise Violation("C15", "operand_changed", "ds[%r] = a changed a: %s" % (s["key"], V.describe_snap_diff(a_before, V.snap(a))))
         self.model.setitem(s["key"], spec)
         self.n_mut += 1
         return "ok"
@@ -851,7 +856,7 @@ class DatasetWorld(object):
                 d = V.describe_snap_diff(before[0], after[0]) or "object identities changed"
                 raise Violation("C13", "ds_reject_noop", "rejected ds[%r] = array(dims=%r) (mismatch on %r at position %d) changed the dataset: %s; dims now %r" % (
                     s["key"], spec["dims"], s["bad_dim"], t.get("j", -1), d, self.ds.dims))
-        if V.snap(a) != a_before:
+        if V.snap(a) != a_before and "C15" in self.props:
             raise Violation("C15", "operand_changed", "rejected assignment changed the array")
         return "rejected" if raised is not None else "accepted!"
 
